@@ -63,7 +63,11 @@ Unionish == { Opt(P("int32")), Opt(P("string")), Opt(R2), Union(<<Case("int32", 
               Union(<<Case("int32", P("int32")), Case("string", P("string"))>>, FALSE), Union(<<Case("float32", P("float32")), Case("rec", R2)>>, FALSE) }
 ContainersOfUnionish == UNION { { Vec(u), FVec(u, 2), Map(P("string"), u), Map(P("int32"), u), DynArr(u), NdArr(u, 1), FArr(u, <<2>>),
                                   Rec(<< Field("m", Map(P("string"), u)), Field("v", Vec(u)) >>) } : u \in Unionish }
-NamedTypes == RNamed \cup PodContainers \cup AliasedAt \cup ContainersOfUnionish \cup { RGenU, Vec(RGenU), RPod, RPod2, E3, EU8, EI64, F3, FU64, R2, ROpt, REmpty, Alias(P("int32")), Alias(P("string")), Alias(Vec(P("float32"))) }
+\* unions whose cases are containers of optionals / unions (a case that is a container of a union is not "a union inside a union")
+UnionsOfContainers == { Union(<<Case("int32", P("int32")), Case("vo", Vec(Opt(P("int32"))))>>, FALSE),
+                        Union(<<Case("mo", Map(P("string"), Opt(P("int32")))), Case("bool", P("bool"))>>, TRUE),
+                        Union(<<Case("vu", Vec(Union(<<Case("int32", P("int32")), Case("string", P("string"))>>, FALSE))), Case("string", P("string"))>>, FALSE) }
+NamedTypes == RNamed \cup PodContainers \cup AliasedAt \cup ContainersOfUnionish \cup UnionsOfContainers \cup { RGenU, Vec(RGenU), RPod, RPod2, E3, EU8, EI64, F3, FU64, R2, ROpt, REmpty, Alias(P("int32")), Alias(P("string")), Alias(Vec(P("float32"))) }
 
 KeyTypes == { P("string"), P("int32"), P("uint64"), P("int8"), Alias(P("string")) }
 
